@@ -193,6 +193,58 @@ pub fn alphabet_sweep(r: &mut Rng, dynamic: bool) -> (Vec<u8>, Vec<u8>) {
     (w.out, plain)
 }
 
+/// Two consecutive dynamic blocks whose headers transmit the *same* sequence of code lengths but split it
+/// differently between the literal/length and the distance alphabet (HLIT+1, HDIST-1): legal use of the
+/// HLIT/HDIST slack. A decoder that confuses the two splits decodes other distances than zlib.
+pub fn split_shift_stream(r: &mut Rng) -> (Vec<u8>, Vec<u8>) {
+    let (a, b) = (b'a' + r.below(20) as u8, b'A' + r.below(20) as u8);
+    let mut ll = vec![0u8; 286];
+    ll[a as usize] = 2;
+    ll[b as usize] = 2;
+    ll[256] = 2;
+    ll[257] = 2; // length 3
+    let mut w = gen::BitW::new();
+    let mut plain = vec![];
+    let reps = 1 + r.usize_below(3);
+    for i in 0..2 * reps {
+        let last = i == 2 * reps - 1;
+        let shifted = i % 2 == 1;
+        // block "A": hlit 258, distance lengths [0,1,1]; block "B": hlit 259, distance lengths [1,1]
+        let (hlit, dl, d0): (usize, Vec<u8>, u16) = if shifted { (259, vec![1, 1], 1) } else { (258, vec![0, 1, 1], 2) };
+        let mut dl30 = vec![0u8; 30];
+        dl30[..dl.len()].copy_from_slice(&dl);
+        let mut toks = vec![Tok::Lit(a), Tok::Lit(b), Tok::Lit(a)];
+        for _ in 0..1 + r.usize_below(4) {
+            toks.push(Tok::Ref {
+                len: 3,
+                dist: d0 + r.below(2) as u16,
+                irr258: false,
+            });
+            toks.push(Tok::Lit(if r.chance(1, 2) { a } else { b }));
+        }
+        w.put(last as u32, 1);
+        w.put(2, 2);
+        if !gen::write_dynamic_header_exact(r, &mut w, &ll, &dl30, 0, hlit, dl.len(), 0) {
+            return (vec![], vec![]);
+        }
+        let (llc, dlc) = (gen::canon_codes(&ll), gen::canon_codes(&dl30));
+        gen::write_tokens(&mut w, &toks, &ll, &llc, &dl30, &dlc);
+        for t in &toks {
+            match *t {
+                Tok::Lit(x) => plain.push(x),
+                Tok::Ref { len, dist, .. } => {
+                    for _ in 0..len {
+                        let x = plain[plain.len() - dist as usize];
+                        plain.push(x);
+                    }
+                }
+            }
+        }
+    }
+    w.pad(0);
+    (w.out, plain)
+}
+
 impl Monitor for C03 {
     fn ncases(&self) -> u64 {
         self.n_sweep + self.n_gen + self.n_comp + self.n_shape + self.n_samples
@@ -203,6 +255,14 @@ impl Monitor for C03 {
         let mut k = k;
         if k < self.n_sweep {
             let mut r = Rng::derive(self.seed, 0x0300, k, 0);
+            if k % 5 == 4 {
+                for _ in 0..20 {
+                    let (d, p) = split_shift_stream(&mut r);
+                    ctx.count("source:split_shift");
+                    Self::judge(&d, Some(&p), "blocks sharing one code-length sequence with the HLIT/HDIST split moved by one", ctx, false);
+                }
+                return;
+            }
             let dynamic = k % 2 == 1;
             let (d, p) = alphabet_sweep(&mut r, dynamic);
             ctx.count("source:alphabet_sweep");
